@@ -413,12 +413,15 @@ func (m *gModel) step(op gOp, r gResp) (string, string) {
 	}
 	switch op.Kind {
 	case "CreateBucket":
+		if m.Buckets[op.Bucket] != nil {
+			// creating a bucket that exists: answered OK or refused (the real service says
+			// 409); either way the bucket keeps everything it holds
+			return "", ""
+		}
 		if !ok2xx(r.Status) {
 			return fail("valid-rejected", "bucket creation failed: %s", r.Body)
 		}
-		if m.Buckets[op.Bucket] == nil {
-			m.Buckets[op.Bucket] = map[string]*gObj{}
-		}
+		m.Buckets[op.Bucket] = map[string]*gObj{}
 	case "DeleteBucket":
 		// the bucket goes with everything in it (or, as the real service would for a bucket
 		// that still holds objects, the request is refused with 409 and nothing changes)
